@@ -1,18 +1,17 @@
 SPECIFICATION Spec
 CONSTANTS
-  EarlyOrder = "cc-first"
+  EarlyOrder = "data-first"
   Clients = {"c1", "c2"}
   Backlog = 1
-  Mius = {128, 200}
+  Mius = {128}
   RWs = {1, 2}
   LinkMiuA = 150
   LinkMiuB = 300
   MaxAcc = 2
-  ListenerPresent = FALSE
+  ListenerPresent = TRUE
 INVARIANT Agreement
 INVARIANT NoEarlyLoss
 INVARIANT BacklogOk
 INVARIANT RefusedRight
 INVARIANT OnePerPeer
-PROPERTY ConnectAnswered
 CHECK_DEADLOCK FALSE
